@@ -219,11 +219,13 @@ Fixpoint infer_sh_loop (cfg : settings) (act : activity) (auto : bool) (sho : na
   | [] => (st, sh)
   | SStartTxn :: _ => (set_role st (Some Primary), sh)
   | SQuery q :: rest =>
-      if pin then infer_sh_loop cfg act auto sho (S i) pin visited st sh rest
+      (* since the F39 repair the shard is inferred from every Query statement, also when the
+         role was settled by recent activity (the two former [continue]s skipped it) *)
+      let sh' := shard_step auto (sho i) sh in       (* after the role decision *)
+      if pin then infer_sh_loop cfg act auto sho (S i) pin visited st sh' rest
       else if a_hot act i
-      then infer_sh_loop cfg act auto sho (S i) true visited (set_role st (Some Primary)) sh rest
+      then infer_sh_loop cfg act auto sho (S i) true visited (set_role st (Some Primary)) sh' rest
       else
-        let sh' := shard_step auto (sho i) sh in       (* after the role decision *)
         if is_write_query q
         then infer_sh_loop cfg act auto sho (S i) pin true (set_role st (Some Primary)) sh' rest
         else if visited
